@@ -106,7 +106,7 @@ def opAuto (x : B) : Outcome String := do
   let inner ← match r with
     | .v1 r1 => do let s ← v1BinResult r1; pure s!"v1 {s}"
     | .v2 r2 => do let s ← v2Result r2; pure s!"v2 {s}"
-  pure s!"{inner} ainc={b01 r.isIncomplete} acomp={b01 r.isComplete}"
+  pure s!"{inner} ainc={b01 r.isIncomplete} acomp={b01 r.isComplete} from=1"
 
 def opFmt1 (rest : String) : Option String :=
   (v1Addr? rest).map (fun a => hexOf a.format)
